@@ -256,13 +256,14 @@ Definition mp_result (v : tipview) (pA : list nat) (curlength : Q) (ea : einfo) 
   else cut_and_root t2 [] j false e1 e2.
 
 Lemma reroot_midpoint_inv2 t t' :
+  2 <= degree (unroot t) ->
   reroot_midpoint t = Ok t' ->
   exists q lf v pA l cur ea,
     In (q, lf) (tip_paths (unroot t)) /\ view_from (unroot t) q = Some v /\
     mlp_tip v = Some (Some pA, l) /\ edge_at (tv_tree v) (tv_slot v) = Some ea /\
     mp_result v pA cur ea = Some t'.
 Proof.
-  unfold reroot_midpoint. cbv zeta.
+  intros D0. rewrite (reroot_midpoint_gen_eq t D0). unfold reroot_midpoint_gen.
   set (t1 := unroot t).
   set (f := fun (st : res (mp_state * Q)) (pn : list nat * utree) => _).
   assert (INV : forall l acc,
@@ -301,8 +302,8 @@ Proof.
   intros Hwf Hd Hi Hnn H.
   destruct (reroot_midpoint_wf_leaves t t' Hwf Hd Hi H) as [W' [D' L']].
   split; [exact W'|]. split; [exact D'|]. split; [exact L'|].
-  destruct (reroot_midpoint_inv2 _ _ H) as (q&lf&v&pA&l&cur&ea&Hin&Hv&Hm&He&Hres).
   destruct (unroot_stage t Hwf Hd Hi) as [W1 [D1 [L1 _]]].
+  destruct (reroot_midpoint_inv2 _ _ D1 H) as (q&lf&v&pA&l&cur&ea&Hin&Hv&Hm&He&Hres).
   assert (P1 : dists_equiv (pairdists elen (unroot t)) (pairdists elen t)).
   { destruct (rooted t) eqn:Hr.
     - apply unroot_pairdists_elen; auto.
